@@ -54,6 +54,17 @@ func projCheck(w *Worker, s string, origin string) {
 	if string(rs.ToBytes()) != s || string(rb.ToString()) != s {
 		viol("conversion", "ToBytes/ToString do not preserve the content")
 	}
+	{
+		// the string made from a byte slice is the caller's to keep: later writes to the slice do not reach it
+		src := []byte(s)
+		kept := redact.RedactableBytes(src).ToString()
+		for i := range src {
+			src[i] = '#'
+		}
+		if string(kept) != s {
+			viol("conversion", "RedactableBytes.ToString() changed when the source slice was overwritten afterwards: "+q(string(kept)))
+		}
+	}
 	if string(rs.ToBytes().Redact()) != red || rb.ToString().StripMarkers() != st {
 		viol("conversion", "conversion followed by projection differs from direct projection")
 	}
